@@ -18,17 +18,20 @@ from . import c01
 PROP = "C07"
 
 
-def unit_compute(model, sizes, gamma_mode):
+def unit_compute(model, sizes, gamma_mode, twins=False):
+    """twins: every team is a deep copy of the first (same values, same id - the
+    `template = model.rating(); copy.deepcopy(template)` idiom)"""
     recs = []
     n = len(sizes)
     fn = f"{model}._compute"
     tm = model.startswith("Thurstone")
     for blocks in compositions(n):
         ranks = ranks_of(blocks)
-        shape = f"sizes={sizes},ties={blocks},gamma={gamma_mode}"
-        run = ComputeRun(model, sizes, ranks, gamma_mode)
+        shape = f"sizes={sizes},ties={blocks},gamma={gamma_mode}" + (",deep-copied twins" if twins else "")
+        run = ComputeRun(model, sizes, ranks, gamma_mode, identical="twins" if twins else False)
         rp = c01._std_replay(model, sizes, ranks, gamma_mode, scale_of(model))
         rp["kind"] = "c07_zero"
+        rp["twins"] = bool(twins)
         if not run.ok():
             recs.append(driver.rec(f"C07/{model}/_compute/returns@{shape}", "refuted", "explorer", 0, fn=fn, shape=shape, note=repr(run.out[1]), replay=rp))
             continue
@@ -70,7 +73,7 @@ def unit_compute(model, sizes, gamma_mode):
             recs.append(field_rec(f"C07/{model}/_compute/sum-is-tied-pair-terms@{shape}", ok, "field", note[:300], t, fn, shape, rp))
             recs.append(field_rec(f"C07/{model}/_compute/vt-contract-instances@{shape}", inst_ok, "field",
                                   f"{len(tied)} tied pairs: x_qi = -x_iq, t_qi = t_iq = kappa/c_iq", time.time() - t0 - t, fn, shape, rp))
-        if blocks == (1,) * n and gamma_mode == "default":
+        if blocks == (1,) * n and gamma_mode == "default" and not twins:
             with active(run.ctx):
                 U = 0
                 for i in range(n):
@@ -119,6 +122,8 @@ def units(tier):
             for sizes in (svs if n <= 3 or tier == "thorough" else svs[:2]):
                 us.append(("unit_compute", (m, sizes, "default")))
             us.append(("unit_compute", (m, tuple([1] * n) if n > 2 else (2, 1), "custom")))
+        for sizes in ((1, 1), (2, 2), (1, 1, 1)):
+            us.append(("unit_compute", (m, sizes, "default", True)))
     us.sort(key=lambda u: -(sum(u[1][1]) * 2 ** len(u[1][1])) if u[0] != "unit_lemmas" else 0)
     return us
 
